@@ -5,6 +5,8 @@ Require Import Htp.Model.MConnTypes Htp.Model.MBstr Htp.Model.MTxCommon Htp.Mode
 Require Import Htp.Spec.SBody Htp.Proof.PBody Htp.Proof.PBodyReq Htp.Proof.PBodyReqRun.
 Local Open Scope Z_scope.
 
+Ltac bd_splits := repeat match goal with |- _ /\ _ => split end.
+
 Section Req.
 Variable cb : cb_oracle.
 Variable g : cfg.
@@ -270,5 +272,168 @@ Proof.
     + rewrite L5. exact Hs.
     + exists t1. split; [exact L8|]. subst t1. cbn. repeat split; try lia.
       all: try (intros Hv0; apply Z.eqb_neq in Ev2; lia).
+Qed.
+
+(* ---- leaving the call with HTP_DATA_BUFFER: the pending bytes go to in_buf ---- *)
+Lemma bd_req_buffer_zero c d : k_data (c_in c) = Some d -> k_consume (c_in c) = k_read (c_in c) -> req_buffer g c = (ST_OK, c).
+Proof.
+  intros Hd Hc. unfold req_buffer. rewrite Hd, Hc, Nat.ltb_irrefl, Nat.sub_diag. reflexivity.
+Qed.
+Lemma bd_rq_iter_buffer c c1 c2 :
+  rq_state_fn cb g (c_in_state c) c = (ST_DATA_BUFFER, c1) -> k_receiver_hook (c_in c1) = None ->
+  req_buffer g c1 = (ST_OK, c2) ->
+  rq_iter cb g false c = inl (c2 <| c_in_status := c_HTP_STREAM_DATA |>, c_HTP_STREAM_DATA).
+Proof. intros H1 H2 H3. unfold rq_iter. rewrite H1. unfold rq_exit, req_receiver_send_data. rewrite H2, H3. reflexivity. Qed.
+
+(* c2 observes the same transactions, events and counters as c *)
+Definition bd_rq_same (c c2 : connp) : Prop :=
+  c_events c2 = c_events c /\ (forall j, tx_slot c2 j = tx_slot c j) /\
+  c_in_body_data_left c2 = c_in_body_data_left c /\ c_in_chunked_length c2 = c_in_chunked_length c.
+Lemma bd_rq_same_refl c : bd_rq_same c c. Proof. repeat split. Qed.
+Lemma bd_rq_same_trans a b c : bd_rq_same a b -> bd_rq_same b c -> bd_rq_same a c.
+Proof. intros (A1 & A2 & A3 & A4) (B1 & B2 & B3 & B4). repeat split; try congruence; try (intros j; rewrite B2; apply A2). Qed.
+
+Lemma bd_no_lf_app a b : bd_no_lf (a ++ b) = bd_no_lf a && bd_no_lf b.
+Proof. apply forallb_app. Qed.
+
+(* ================= line assembly: up to the TCP chunk that contains the LF ================= *)
+Lemma bd_rq_assemble i : forall rem c lrest rest,
+  bd_rq_inv i c -> c_in_state c = REQ_BODY_CHUNKED_LENGTH -> k_consume (c_in c) = k_read (c_in c) ->
+  bd_rq_rest c ++ concat rem = lrest ++ LF :: rest -> bd_no_lf lrest = true ->
+  (length (bd_olist (k_buf (c_in c))) + length lrest + 1 <= g_field_limit_hard g)%nat ->
+  Forall (fun d => d <> []) rem ->
+  exists c2 rem2 l2 tl2,
+    bd_rq_reach cb g c rem c2 rem2 /\ bd_rq_inv i c2 /\ c_in_state c2 = REQ_BODY_CHUNKED_LENGTH /\
+    k_consume (c_in c2) = k_read (c_in c2) /\
+    bd_rq_rest c2 = l2 ++ LF :: tl2 /\ bd_no_lf l2 = true /\
+    bd_olist (k_buf (c_in c2)) ++ l2 = bd_olist (k_buf (c_in c)) ++ lrest /\
+    tl2 ++ concat rem2 = rest /\ Forall (fun d => d <> []) rem2 /\ bd_rq_same c c2.
+Proof.
+  induction rem as [|d' rem IH]; intros c lrest rest Inv Hs Hc Hw Hnl Hhard Hrem.
+  - cbn [concat] in Hw. rewrite app_nil_r in Hw.
+    exists c, [], lrest, rest. bd_splits; auto; try constructor; try apply app_nil_r; try apply bd_rq_same_refl.
+  - destruct (Nat.lt_ge_cases (length lrest) (length (bd_rq_rest c))) as [Hlt|Hge].
+    + (* the LF is in the current chunk *)
+      assert (exists tl, bd_rq_rest c = lrest ++ LF :: tl /\ tl ++ concat (d' :: rem) = rest) as (tl & E1 & E2).
+      { destruct (bd_app_prefix lrest (bd_rq_rest c) (LF :: rest) (concat (d' :: rem))) as (x & X1 & X2); [symmetry; exact Hw|lia|].
+        destruct x as [|x0 x]; [rewrite app_nil_r in X1; rewrite X1 in Hlt; lia|].
+        cbn in X2. inversion X2; subst x0. exists x. split; [exact X1|reflexivity]. }
+      exists c, (d' :: rem), lrest, tl. bd_splits; auto; try constructor; try apply bd_rq_same_refl.
+    + (* the whole rest of the chunk belongs to the line; it is buffered and the next call continues *)
+      destruct (bd_app_prefix (bd_rq_rest c) lrest (concat (d' :: rem)) (LF :: rest) Hw Hge) as (lrest' & Hb & Hw').
+      pose proof (Forall_inv Hrem) as Hd'. pose proof (Forall_inv_tail Hrem) as Hrem'. cbn beta in Hd'.
+      assert (Hnl2 : bd_no_lf (bd_rq_rest c) = true /\ bd_no_lf lrest' = true).
+      { rewrite Hb, bd_no_lf_app in Hnl. apply andb_true_iff in Hnl. exact Hnl. }
+      destruct Hnl2 as (Hnl1 & Hnl2).
+      destruct (bq_data _ _ Inv) as (d & Hd & Hlen & Hrd).
+      assert (Hfn : rq_state_fn cb g (c_in_state c) c = REQ_BODY_CHUNKED_LENGTH_fn g c) by (rewrite Hs; reflexivity).
+      pose proof (bd_rq_length_loop (bd_rq_rest c) c (k_len (c_in c) - k_read (c_in c)) []) as Hloop.
+      rewrite app_nil_r in Hloop. specialize (Hloop (ex_intro _ d (conj Hd (conj Hlen Hrd))) eq_refl Hnl1).
+      assert (Hn : (length (bd_rq_rest c) <= k_len (c_in c) - k_read (c_in c))%nat)
+        by (rewrite Hlen; unfold bd_rq_rest; rewrite Hd, skipn_length; lia).
+      specialize (Hloop Hn I).
+      assert (Hlr : length lrest = (length (bd_rq_rest c) + length lrest')%nat) by (rewrite Hb at 1; apply app_length).
+      (* the parser after the exit: c2 *)
+      assert (Hexit : exists c2, rq_iter cb g false c = inl (c2 <| c_in_status := c_HTP_STREAM_DATA |>, c_HTP_STREAM_DATA) /\
+                bd_rq_inv i c2 /\ c_in_state c2 = REQ_BODY_CHUNKED_LENGTH /\ bd_rq_same c c2 /\
+                bd_olist (k_buf (c_in c2)) = bd_olist (k_buf (c_in c)) ++ bd_rq_rest c).
+      { destruct (bd_rq_rest c) as [|p0 pp] eqn:Er.
+        - exists c. split; [|bd_splits; auto; try (symmetry; apply app_nil_r); apply bd_rq_same_refl].
+          eapply bd_rq_iter_buffer; [rewrite Hfn; exact Hloop|apply (bq_rcv _ _ Inv)|]. eapply bd_req_buffer_zero; eauto.
+        - set (k := length (p0 :: pp)) in *. set (nb := Some (last (p0 :: pp) 0%N)) in *.
+          set (c1 := bd_rq_copied k nb c) in *.
+          assert (F1 : c_in c1 = (c_in c) <| k_next_byte := nb |> <| k_read := (k_read (c_in c) + k)%nat |>) by reflexivity.
+          assert (Hk : (k_read (c_in c) + k <= length d)%nat).
+          { unfold bd_rq_rest in Er. rewrite Hd in Er. assert (length (skipn (k_read (c_in c)) d) = k) by (rewrite Er; reflexivity).
+            rewrite skipn_length in H. lia. }
+          assert (Hsl : firstn (k_read (c_in c1) - k_consume (c_in c1)) (skipn (k_consume (c_in c1)) d) = p0 :: pp).
+          { rewrite F1. cbn [k_read k_consume set k_next_byte]. rewrite Hc.
+            replace (k_read (c_in c) + k - k_read (c_in c))%nat with k by lia.
+            unfold bd_rq_rest in Er. rewrite Hd in Er. rewrite Er. unfold k. apply firstn_all. }
+          assert (Hbuf : req_buffer g c1 = (ST_OK, rq_set_in (fun cur => cur <| k_buf := Some (bd_olist (k_buf (c_in c1)) ++ p0 :: pp) |>
+                                                                           <| k_consume := k_read cur |>) c1)).
+          { rewrite <- Hsl. apply (bd_req_buffer_spec i c1 d); rewrite ?F1; cbn [k_data k_header k_read k_consume k_buf set k_next_byte];
+              try assumption; try (apply (bq_hdr _ _ Inv)); try (apply (bq_tx _ _ Inv)); try lia.
+            unfold k in *. cbn [length] in *. lia. }
+          eexists. split; [eapply bd_rq_iter_buffer; [rewrite Hfn; exact Hloop|apply (bq_rcv _ _ Inv)|exact Hbuf]|].
+          destruct Inv as [A (t & B1 & B2) C D E F].
+          split; [|split; [|split]].
+          + constructor; try assumption.
+            * exists t. split; [|exact B2]. rewrite <- B1. apply bd_slot_ext; reflexivity.
+            * exists d. cbn. repeat split; auto.
+          + exact Hs.
+          + unfold bd_rq_same. bd_splits; try reflexivity; try (intros j; apply bd_slot_ext; reflexivity).
+          + cbn. reflexivity. }
+      destruct Hexit as (c2 & Hit & Inv2 & Hs2 & Same2 & Hbuf2).
+      set (c3 := bd_req_begin d' (c2 <| c_in_status := c_HTP_STREAM_DATA |>)).
+      destruct (bd_begin_misc d' (c2 <| c_in_status := c_HTP_STREAM_DATA |>)) as (Ev & St & L1 & L2 & Bf & Sl).
+      destruct (IH c3 lrest' rest) as (c4 & rem4 & l4 & tl4 & R4 & I4 & S4 & C4 & Rs4 & N4 & B4 & W4 & F4 & Sm4); auto.
+      { apply bd_inv_begin. apply bd_inv_status. exact Inv2. }
+      { unfold c3. rewrite St. exact Hs2. }
+      { unfold c3, bd_req_begin. cbv zeta. match goal with |- context [if ?b then _ else _] => destruct b end; reflexivity. }
+      { unfold c3. rewrite bd_begin_rest. exact Hw'. }
+      { unfold c3. rewrite Bf. cbn [c_in set]. rewrite Hbuf2, app_length. lia. }
+      exists c4, rem4, l4, tl4. bd_splits; auto; [| |unfold bd_rq_same; bd_splits].
+      * eapply bd_rr_next; [exact Hit|exact R4].
+      * rewrite B4. unfold c3. rewrite Bf. cbn [c_in set]. rewrite Hbuf2, Hb, app_assoc. reflexivity.
+      * destruct Sm4 as (X1 & X2 & X3 & X4). destruct Same2 as (Y1 & Y2 & Y3 & Y4).
+        rewrite X1. unfold c3. rewrite Ev. exact Y1.
+      * destruct Sm4 as (X1 & X2 & X3 & X4). destruct Same2 as (Y1 & Y2 & Y3 & Y4). intros j. rewrite X2. unfold c3. rewrite Sl.
+        rewrite <- Y2. apply bd_slot_ext; reflexivity.
+      * destruct Sm4 as (X1 & X2 & X3 & X4). destruct Same2 as (Y1 & Y2 & Y3 & Y4). rewrite X3. unfold c3. rewrite L1. exact Y3.
+      * destruct Sm4 as (X1 & X2 & X3 & X4). destruct Same2 as (Y1 & Y2 & Y3 & Y4). rewrite X4. unfold c3. rewrite L2. exact Y4.
+Qed.
+
+(* ================= C06_line_assembly (request side) =================
+   REQ_BODY_CHUNKED_LENGTH fed ANY chunking of  lrest ++ LF :: rest  (the bytes already buffered are `pending`):
+   the value stored in in_chunked_length is that of the WHOLE line, request_message_len grows by its length, the
+   parser is positioned right after the LF, nothing is delivered. *)
+Theorem bd_rq_line_assembly i rem c lrest rest t :
+  bd_rq_inv i c -> c_in_state c = REQ_BODY_CHUNKED_LENGTH -> k_consume (c_in c) = k_read (c_in c) ->
+  bd_rq_rest c ++ concat rem = lrest ++ LF :: rest -> bd_no_lf lrest = true ->
+  (length (bd_olist (k_buf (c_in c))) + length lrest + 1 <= g_field_limit_hard g)%nat ->
+  Forall (fun d => d <> []) rem -> tx_slot c i = Some t ->
+  let line := bd_olist (k_buf (c_in c)) ++ lrest ++ [LF] in
+  let v := bd_rq_line_value line in
+  exists c2 rem2 c',
+    bd_rq_reach cb g c rem c2 rem2 /\
+    rq_state_fn cb g (c_in_state c2) c2 = (bd_rq_line_rc v, c') /\
+    c_in_chunked_length c' = v /\ c_in_state c' = bd_rq_line_state v /\
+    bd_rq_rest c' ++ concat rem2 = rest /\ Forall (fun d => d <> []) rem2 /\
+    c_events c' = c_events c /\ c_in_body_data_left c' = c_in_body_data_left c /\
+    c_in_tx c' = Some i /\ c_in_status c' = c_in_status c2 /\ bd_rq_inv i c2 /\
+    k_consume (c_in c') = k_read (c_in c') /\ k_buf (c_in c') = None /\ k_header (c_in c') = None /\ k_receiver_hook (c_in c') = None /\
+    (exists d, k_data (c_in c') = Some d /\ k_len (c_in c') = length d /\ (k_read (c_in c') <= length d)%nat) /\
+    exists t', tx_slot c' i = Some t' /\ t_hook_request_body t' = t_hook_request_body t /\
+               t_request_entity_len t' = t_request_entity_len t /\
+               t_request_message_len t' = t_request_message_len t + Z.of_nat (length line) /\
+               (v = 0 -> t_request_progress t' = c_HTP_REQUEST_TRAILER).
+Proof.
+  intros Inv Hs Hc Hw Hnl Hhard Hrem Hl line v.
+  destruct (bd_rq_assemble i rem c lrest rest Inv Hs Hc Hw Hnl Hhard Hrem)
+    as (c2 & rem2 & l2 & tl2 & R2 & I2 & S2 & C2 & Rs2 & N2 & B2 & W2 & F2 & (Sm1 & Sm2 & Sm3 & Sm4)).
+  assert (Hl2 : tx_slot c2 i = Some t) by (rewrite Sm2; exact Hl).
+  assert (Hh2 : (length (bd_olist (k_buf (c_in c2))) + length l2 + 1 <= g_field_limit_hard g)%nat).
+  { assert (length (bd_olist (k_buf (c_in c2)) ++ l2) = length (bd_olist (k_buf (c_in c)) ++ lrest)) by (rewrite B2; reflexivity).
+    rewrite !app_length in H. lia. }
+  destruct (bd_rq_length_final i t c2 l2 tl2 I2 S2 C2 Rs2 N2 Hh2 Hl2)
+    as (c' & Hfn & A1 & A2 & A3 & A4 & A5 & A6 & A7 & A8 & A9 & A10 & A11 & A12 & A13 & A14 & t' & T1 & T2 & T3 & T4 & T5).
+  assert (Hline : bd_olist (k_buf (c_in c2)) ++ l2 ++ [LF] = line) by (unfold line; rewrite !app_assoc, B2; reflexivity).
+  rewrite Hline in *. fold v in Hfn, A5, A6, T5.
+  destruct (bq_data _ _ I2) as (d & Hd & Hlen & Hrd).
+  assert (Hrd' : (k_read (c_in c2) + length l2 + 1 <= length d)%nat).
+  { unfold bd_rq_rest in Rs2. rewrite Hd in Rs2. assert (length (skipn (k_read (c_in c2)) d) = length (l2 ++ LF :: tl2)) by (rewrite Rs2; reflexivity).
+    rewrite skipn_length, app_length in H. cbn in H. lia. }
+  exists c2, rem2, c'. bd_splits; auto.
+  - rewrite S2. exact Hfn.
+  - unfold bd_rq_rest. rewrite A8, Hd, A10. unfold bd_rq_rest in Rs2. rewrite Hd in Rs2.
+    replace (k_read (c_in c2) + length l2 + 1)%nat with (k_read (c_in c2) + (length l2 + 1))%nat by lia.
+    rewrite <- bd_skipn_skipn, Rs2. change (LF :: tl2) with ([LF] ++ tl2). rewrite app_assoc, skipn_app.
+    replace (length l2 + 1 - length (l2 ++ [LF]))%nat with 0%nat by (rewrite app_length; cbn; lia).
+    rewrite skipn_all2 by (rewrite app_length; cbn; lia). cbn. exact W2.
+  - rewrite A3. exact Sm1.
+  - rewrite A4. exact Sm3.
+  - exists d. rewrite A8, A9, A10. bd_splits; auto.
+  - exists t'. bd_splits; auto.
 Qed.
 End Req.
